@@ -89,17 +89,29 @@ def prod(a, axis=None, dtype=None, keepdims=False, split_every=None, out=None):
     )
 
 
+def _reduces_empty_axis(x, axis):
+    """Whether reducing ``x`` over ``axis`` reduces over a zero-length axis (no identity for min/max)."""
+    if axis is None:
+        axes = range(x.ndim)
+    elif isinstance(axis, Integral):
+        axes = (axis,)
+    else:
+        axes = axis
+    return builtins.any(x.shape[a] == 0 for a in axes)
+
+
 def chunk_min(x, axis=None, keepdims=None):
     """Version of np.min which ignores size 0 arrays"""
-    if x.size == 0:
+    if x.size == 0 and _reduces_empty_axis(x, axis):
         return array_safe([], x, ndmin=x.ndim, dtype=x.dtype)
     else:
+        # an array that is empty only along kept axes reduces to a (correctly shaped) empty result
         return np.min(x, axis=axis, keepdims=keepdims)
 
 
 def chunk_max(x, axis=None, keepdims=None):
     """Version of np.max which ignores size 0 arrays"""
-    if x.size == 0:
+    if x.size == 0 and _reduces_empty_axis(x, axis):
         return array_safe([], x, ndmin=x.ndim, dtype=x.dtype)
     else:
         return np.max(x, axis=axis, keepdims=keepdims)
